@@ -392,6 +392,9 @@ def _hist_worker(job):
     return s
 
 
+DEEP_ROOTS = ["OFX", "INVSTMTMSGSRSV1", "INVSTMTTRNRS", "INVSTMTRS", "BANKMSGSRSV1", "SECLISTMSGSRSV1", "PROFMSGSRSV1", "SIGNUPMSGSRSV1", "BILLPAYMSGSRSV1"]
+
+
 def _thread_worker(job):
     H.setup_path()
     names, n, seed = job
@@ -406,6 +409,17 @@ def _thread_worker(job):
         for i in range(nthreads):
             loads.append([draw(mk(force_cls=shared_cls if j == 0 else None)) for j in range(draw(st.integers(1, 3)))])
         c = {"kind": "threads", "loads": loads, "rounds": 2}
+        if draw(st.integers(0, 3)) == 0:
+            # heavy variant: 12-16 threads, every one busy converting a large, deeply nested document at the same time
+            # (process-wide scratch state - counters, stacks, "current" pointers - only clashes when many conversions
+            # are in flight together)
+            U = M.universe()
+            deep = st.sampled_from([x for x in DEEP_ROOTS if x in U])
+            loads = []
+            for i in range(draw(st.sampled_from([12, 16]))):
+                inst = draw(deep.flatmap(lambda nm: M.instance_st(U[nm], max_members=3, markup=False, p0=0.9)))
+                loads.append([{"kind": draw(st.sampled_from(["tree", "wire"])), "inst": inst, "form": draw(st.integers(0, 5))}])
+            return {"kind": "threads", "loads": loads, "rounds": 3, "deep": True}
         if draw(st.booleans()):
             # first-use variant: every thread starts with an item of the shared class, in a fresh interpreter
             for load in loads:
@@ -414,7 +428,7 @@ def _thread_worker(job):
         return c
 
     def body(c):
-        s.case(c, nontrivial=len(c["loads"]) >= 4, labels=["threads:%d" % len(c["loads"])] + (["threads are first users in a fresh interpreter"] if c.get("fresh") else []))
+        s.case(c, nontrivial=len(c["loads"]) >= 4, labels=["threads:%d" % len(c["loads"])] + (["threads are first users in a fresh interpreter"] if c.get("fresh") else []) + (["all threads convert deep documents"] if c.get("deep") else []))
         for k, d in check_case(c):
             s.fail(k, c, d)
 
